@@ -793,53 +793,90 @@ func r03HalfOpenTables(c *core.Ctx) {
 		}
 		c.Check(R, "quadrant-bit-layout-agrees/pointindex", iq.Decl.Pos(), layout, "isRight | isTop<<1 in getInfiniteQuadrant, right=1/top=2 in oneIfRight/oneIfTop, child = 2*parent + bit in getQuadrantZs", "the quadrant numbering used to classify points differs from the one used to address child pixels")
 	}
-	// (vi) InsertCoord range check: the rejection condition, in negation normal form with boolean helper
-	// functions inlined, is a disjunction that contains x<0, y<0, x>size-1, y>size-1
+	// (vi) InsertCoord range check: decision table over the four comparisons x < 0, y < 0, x > size-1, y > size-1
+	// (in whatever form and polarity: >= 0, <= max, >= size, named parts, boolean helpers): an error is returned
+	// exactly when one of them holds
 	{
-		info := ic.Pkg.TypesInfo
-		sig := ic.Obj.Type().(*types.Signature)
-		px, py := sig.Params().At(0), sig.Params().At(1)
-		seen := map[string]bool{}
-		var guard *ast.IfStmt
-		for _, s := range ic.Decl.Body.List {
-			if is, ok := s.(*ast.IfStmt); ok && guard == nil && returnsErrorValue(info, is.Body) {
-				guard = is
+		construct := "insert-rejects-all-four-sides/pointindex.PointIndex.InsertCoord"
+		fn := ic.SSA
+		var px, py ssa.Value
+		if fn != nil && len(fn.Params) >= 3 {
+			px, py = fn.Params[len(fn.Params)-2], fn.Params[len(fn.Params)-1]
+		}
+		isSize := func(v ssa.Value) bool { return isFieldRead(core.Unwrap(resolveValue(v)), "deepestSize") }
+		isMax := func(v ssa.Value) bool {
+			bo, ok := resolveValue(v).(*ssa.BinOp)
+			return ok && bo.Op == token.SUB && isConstInt(bo.Y, 1) && isSize(bo.X)
+		}
+		var atomIn func(fr *boolFrame, v ssa.Value) (string, bool, bool)
+		atomIn = func(fr *boolFrame, v ssa.Value) (string, bool, bool) {
+			bo, ok := v.(*ssa.BinOp)
+			if !ok {
+				return "", false, false
+			}
+			l, r, op := fr.callerValue(resolveValue(bo.X)), fr.callerValue(resolveValue(bo.Y)), bo.Op
+			ax := ""
+			flip := map[token.Token]token.Token{token.GTR: token.LSS, token.LSS: token.GTR, token.GEQ: token.LEQ, token.LEQ: token.GEQ}
+			if r == px || r == py {
+				l, r = r, l
+				op = flip[op]
+			}
+			switch l {
+			case px:
+				ax = "X"
+			case py:
+				ax = "Y"
+			default:
+				return "", false, false
+			}
+			switch {
+			case isConstInt(r, 0) && op == token.LSS:
+				return ax + "<0", false, true
+			case isConstInt(r, 0) && op == token.GEQ:
+				return ax + "<0", true, true
+			case isMax(r) && op == token.GTR, isSize(r) && op == token.GEQ:
+				return ax + ">max", false, true
+			case isMax(r) && op == token.LEQ, isSize(r) && op == token.LSS:
+				return ax + ">max", true, true
+			}
+			return "", false, false
+		}
+		bad := ""
+		used := map[string]bool{}
+		if fn == nil || px == nil {
+			bad = "no SSA for InsertCoord"
+		}
+		names := []string{"X<0", "Y<0", "X>max", "Y>max"}
+		for m := 0; m < 16 && bad == ""; m++ {
+			as := map[string]bool{}
+			for i, n := range names {
+				as[n] = m&(1<<i) != 0
+			}
+			if (as["X<0"] && as["X>max"]) || (as["Y<0"] && as["Y>max"]) {
+				continue // not a possible position
+			}
+			bi := &boolInterp{roleOf: func(*boolFrame, ssa.Value) string { return "" }, atom: atomIn, assign: as, used: map[string]bool{}}
+			fr := &boolFrame{fn: fn, roles: map[ssa.Value]string{}, env: map[ssa.Value]bool{}}
+			out, err := bi.run(fr, fn.Blocks[0], nil, 0)
+			if err != nil {
+				bad = "the range check depends on more than the four comparisons: " + err.Error()
+				break
+			}
+			for k := range bi.used {
+				used[k] = true
+			}
+			rejected := out.kind != "return" || (out.ret != nil && len(out.ret.Results) == 1 && !isNilConst(out.ret.Results[0]))
+			want := as["X<0"] || as["Y<0"] || as["X>max"] || as["Y>max"]
+			if rejected != want {
+				bad = fmt.Sprintf("with x<0=%v y<0=%v x>size-1=%v y>size-1=%v the coordinate is rejected=%v", as["X<0"], as["Y<0"], as["X>max"], as["Y>max"], rejected)
 			}
 		}
-		shape := ""
-		if guard != nil {
-			atoms, isOr, ok := nnfAtoms(c.P, info, guard.Cond, false, map[types.Object]ast.Expr{}, 0)
-			if !ok || !isOr {
-				shape = "the rejection condition is not a disjunction of comparisons"
-			}
-			for _, a := range atoms {
-				var fl string
-				switch core.ObjOf(a.info, a.l) {
-				case px:
-					fl = "x"
-				case py:
-					fl = "y"
-				default:
-					// through a helper: the helper's parameter was substituted by the argument expression
-					if o := core.ObjOf(info, a.l); o == px {
-						fl = "x"
-					} else if o == py {
-						fl = "y"
-					}
-				}
-				rs := canon(a.r)
-				switch {
-				case a.op == token.LSS && rs == "0":
-					seen[fl+"<0"] = true
-				case a.op == token.GTR && strings.HasSuffix(rs, "-1") && strings.Contains(rs, "deepestSize"):
-					seen[fl+">size-1"] = true
-				case a.op == token.GEQ && strings.Contains(rs, "deepestSize") && !strings.Contains(rs, "-"):
-					seen[fl+">size-1"] = true
-				}
+		for _, n := range names {
+			if bad == "" && !used[n] {
+				bad = "the side " + n + " is never tested"
 			}
 		}
-		okc := guard != nil && shape == "" && seen["x<0"] && seen["y<0"] && seen["x>size-1"] && seen["y>size-1"]
-		c.Check(R, "insert-rejects-all-four-sides/pointindex.PointIndex.InsertCoord", ic.Decl.Pos(), okc, "rejects < 0 and > size-1 on both axes with an error", fmt.Sprintf("InsertCoord's range check covers only %v %s", keys(seen), shape))
+		c.Check(R, construct, ic.Decl.Pos(), bad == "", "rejects < 0 and > size-1 on both axes with an error (decision table over the four comparisons)", "InsertCoord's range check does not reject exactly the coordinates outside 0..size-1: "+bad)
 	}
 	// (vii) lineIntersects applies the ownership exceptions to border touches
 	r03LineIntersectsExceptions(c, li)
